@@ -99,6 +99,24 @@ def Group.merge (g h : Group) (resetIndex resetSupport : Bool) : Except GErr Gro
     let data := if resetIndex then items.mapIdx (fun i m => (⟨(i : Int), m.s⟩ : Member)) else items
     Group.new data (if resetSupport then none else some g.sup) false
 
+/-- the loop of `TsGroup.merge_group(g, *hs)`: for each further group IN ORDER — key overlap with everything
+gathered so far (unless `reset_index`), then its time support against the FIRST group's (unless
+`reset_time_support`) — and only then its items are appended -/
+def mergeItems (g : Group) (resetIndex resetSupport : Bool) : List Member → List Group → Except GErr (List Member)
+  | acc, [] => .ok acc
+  | acc, h :: hs =>
+    if !resetIndex && (h.ms.any fun m => (lookupM m.key acc).isSome) then .error .overlap
+    else if !resetSupport && g.sup != h.sup then .error .support
+    else mergeItems g resetIndex resetSupport (acc ++ h.ms) hs
+
+/-- `TsGroup.merge_group(g, h₁, …, hₙ)` (any number of groups) -/
+def Group.mergeN (g : Group) (hs : List Group) (resetIndex resetSupport : Bool) : Except GErr Group :=
+  match mergeItems g resetIndex resetSupport g.ms hs with
+  | .error e => .error e
+  | .ok items =>
+    let data := if resetIndex then items.mapIdx (fun i m => (⟨(i : Int), m.s⟩ : Member)) else items
+    Group.new data (if resetSupport then none else some g.sup) false
+
 /-- `g.to_tsd()`: all (time, key) pairs; the code sorts them by time with `np.argsort` (any sorting
 permutation); here: stable insertion by time -/
 def Group.toTsd (g : Group) : List (Int × Int) :=
